@@ -30,6 +30,7 @@ func c13Sites() []c13Site {
 	return []c13Site{
 		{"command-argument", true, func(u string, at *AtomTable) string { return script(at, cmd(at)+"("+ph(at.New(ClsIdent, "arg", "consts"))+", "+u+" + 1)") }, nil},
 		{"command-argument-nested-parens", true, func(u string, at *AtomTable) string { return script(at, cmd(at)+"("+ph(at.New(ClsIdent, "fn", "consts"))+"("+u+"))") }, nil},
+		{"command-argument-before-paren", true, func(u string, at *AtomTable) string { return script(at, cmd(at)+"("+u+"(3), "+ph(at.New(ClsIdent, "arg", "consts"))+")") }, nil},
 		{"flag-operand", true, func(u string, at *AtomTable) string { return script(at, "if (flag("+u+")) {\n"+cmd(at)+"\n}") }, nil},
 		{"var-operand", true, func(u string, at *AtomTable) string { return script(at, "if (var("+u+") == 1) {\n"+cmd(at)+"\n}") }, nil},
 		{"defeated-operand", true, func(u string, at *AtomTable) string { return script(at, "while (!defeated("+u+")) {\n"+cmd(at)+"\n}") }, nil},
